@@ -212,19 +212,21 @@ class Source:
             raise LostAnchor("function %s: no return type (unsupported shape)" % name)
         arrow = pc + 1 + tail.index("->")
         bc = match_close(self.masked, bo)
-        params = []
+        params, by_ref = [], []
         for p in split_top(self.masked[po + 1:pc]):
             p = p.strip()
             if not p:
                 continue
             if re.fullmatch(r"&?\s*(mut\s+)?self", p):
                 params.append("self")
+                by_ref.append(False)  # `self` is used as is in the contracts
             else:
-                pm = re.match(r"(mut\s+)?(\w+)\s*:", p)
+                pm = re.match(r"(mut\s+)?(\w+)\s*:\s*(&)?", p)
                 if not pm:
                     raise LostAnchor("function %s: unsupported parameter pattern %r" % (name, p))
                 params.append(pm.group(2))
-        return dict(start=start, arrow=arrow, ret=self.text[pc + 1 + m.start(1):pc + 1 + m.end(1)],
+                by_ref.append(bool(pm.group(3)))
+        return dict(by_ref=by_ref, start=start, arrow=arrow, ret=self.text[pc + 1 + m.start(1):pc + 1 + m.end(1)],
                     body_open=bo, body_close=bc, params=params,
                     lines=[line_of(self.text, start), line_of(self.text, bc)])
 
@@ -327,7 +329,9 @@ def rewrite_fn(src, spec, mode, drop, stub):
     canon = spec["params"]
     if len(canon) != len(f["params"]):
         raise LostAnchor("function %s: %d parameters expected, %d found" % (name, len(canon), len(f["params"])))
-    names = dict(zip(canon, f["params"]))
+    # a $parameter in a contract clause denotes the parameter's VALUE: `(*p)` where the function takes it by
+    # reference, `p` where it takes it by value — so that switching between the two is not a lost anchor
+    names = {c: ("(*%s)" % p if r else p) for c, p, r in zip(canon, f["params"], f["by_ref"])}
     body = text[f["body_open"] + 1:f["body_close"]]
     body_m = mask(body)
     for key, pat in spec.get("locals", {}).items():
@@ -467,7 +471,7 @@ def generate(repo, mode, drop=frozenset(), stub=frozenset()):
             for m in spec["modes"]:
                 s = src(spec["file"])
                 f = s.find_fn(spec["fn"], spec.get("impl"))
-                names = dict(zip(spec["params"], f["params"]))
+                names = {c: ("(*%s)" % p if r else p) for c, p, r in zip(spec["params"], f["params"], f["by_ref"])}
                 req = [subst(c, names, spec["name"]) for c in mode_pick(spec.get("requires", []), m) or []]
                 if not req:
                     continue
